@@ -101,7 +101,7 @@ class G:
         if k == NUM:
             prods = [(3, self.p_arith), (1, self.p_neg), (2, self.p_if), (2, self.p_path), (2, self.p_index), (2, self.p_call),
                      (2, self.p_count), (1, self.p_sum), (1, self.p_strlen), (2, self.p_ctxpath), (1, self.p_leaf),
-                     (1, self.p_closure), (1, self.p_closure_loop)]
+                     (1, self.p_closure), (1, self.p_closure_loop), (1, self.p_shadow_builtin)]
         elif k == STR:
             prods = [(3, self.p_concat), (2, self.p_if), (2, self.p_path), (2, self.p_index), (2, self.p_call), (2, self.p_ctxpath),
                      (1, self.p_leaf)]
@@ -350,6 +350,24 @@ class G:
         tail = ["name", x] if self.src.bool(0.6) else ["arith", "+", ["name", x], ["name", x]]
         return ["list", [call, tail]]
 
+    def p_shadow_builtin(self, k, d, env):
+        """a context entry / iteration variable / parameter named like a built-in function (count, sum) holds a user-defined function
+        (or a number) and is invoked: the nearest binding wins over the built-in"""
+        s = self.src
+        bn = s.choice(["count", "sum"])
+        arg = self.expr(s.choice([NUM, NUM, ("list", NUM)]), d - 1, env)
+        udf = ["fn", [["q", None]], ["arith", s.choice(["+", "*"]), ["name", "q"], ["num", "100"]]] if s.bool(0.8) else ["num", "7"]
+        call = ["call", ["name", bn], [arg]]
+        shape = s.choice(["ctx", "for", "param", "ctx-after"])
+        if shape == "ctx":
+            return ["path", ["ctx", [[bn, udf], ["m", call]]], "m"]
+        if shape == "ctx-after":
+            # the entry is defined AFTER its use: the use still sees the built-in
+            return ["path", ["ctx", [["m", call], [bn, udf]]], "m"]
+        if shape == "for":
+            return ["filter", ["for", [[bn, ["dl", ["list", [udf]]]]], call], ["idx", ["num", "1"]]]
+        return ["call", ["fn", [[bn, None]], call], [udf]]
+
     def p_closure(self, k, d, env):
         """{k: function(p) function(q) p + q, m: k(e1), g: m(e2)}.g  -- the inner function captures p lexically"""
         inner = ["fn", [["q", None]], ["arith", self.src.choice(["+", "-", "*"]), ["name", "p"], ["name", "q"]]]
@@ -419,6 +437,12 @@ class G:
             fk = ("fn", (NUM,), NUM)
             bindings.append(["f", {"feel": "function(p) p * 2 + 1"}])
             env["f"] = fk
+        if s.bool(0.1):
+            # a name of the input context coincides with a built-in function: it shadows the built-in
+            if s.bool(0.7):
+                bindings.append([s.choice(["count", "sum"]), {"feel": "function(p) p * 2 + 1"}])
+            else:
+                bindings.append([s.choice(["count", "sum"]), {"n": "5"}])
         k = self.kind(2)
         ast = self.expr(k, depth, env)
         return {"bindings": bindings, "ast": ast}
